@@ -189,7 +189,12 @@ def check_case(c):
         z = zgrid(gk, n, z0, ztop, zm)
         prof = tuple(f(z) for f in fn)
         lvl = int(round(c["lvl_frac"] * n))
-        _, cc, ff = sut.S(q, z, prof, dom, lvl, modes=(100, 100), halo=0.0, precision="double")
+        # the level is requested together with two others, in an order whose sorting permutation is a 3-cycle:
+        # the slice examined must still be the one at the requested height (the "output heights" clause)
+        others = [l for l in (n // 8, (5 * n) // 8, (7 * n) // 8) if l != lvl][:2]
+        req = [others[0], lvl, others[1]] if others[0] > lvl else [lvl, others[1], others[0]] if others[1] > lvl else [others[1], others[0], lvl]
+        _, cc3, ff3 = sut.S(q, z, prof, dom, req, modes=(100, 100), halo=0.0, precision="double")
+        cc, ff = cc3[req.index(lvl)], ff3[req.index(lvl)]
         Hc = np.fft.fft2(cc) / Q
         Hq = np.fft.fft2(ff) / Q
         ea = eh = 0.0
